@@ -148,7 +148,7 @@ func cmdRun(args []string) int {
 		if *maxPaths > 0 {
 			ec.MaxPaths = *maxPaths
 		}
-		ec.Opt = gosym.Options{MaxSteps: 2000000, LoopBound: 64, DelayBound: 1 + tierN, Seed: seed, Tier: tierN}
+		ec.Opt = gosym.Options{MaxSteps: 2000000, LoopBound: 64, DelayBound: 1 + tierN, Seed: seed, Tier: tierN, CrossPct: 2 + 98*tierN}
 		sums, st := gosym.Explore(p, entries, ec)
 		ev.addSolver(st)
 		for _, s := range sums {
@@ -272,6 +272,7 @@ type evidence struct {
 	ReplaysOK   int
 	Funcs       map[string]bool
 	ForkKinds   map[string]int
+	Cross       map[string]int
 	PerHarness  []map[string]interface{}
 	Samples     []interface{}
 	Problems    []string
@@ -310,6 +311,12 @@ func (e *evidence) addHarness(s *gosym.HarnessSummary) {
 	}
 	for k := range s.Funcs {
 		e.Funcs[k] = true
+	}
+	for k, v := range s.Cross {
+		if e.Cross == nil {
+			e.Cross = map[string]int{}
+		}
+		e.Cross[k] += v
 	}
 	for k, v := range s.ByStatus {
 		e.StatusCount[k] += v
@@ -382,6 +389,7 @@ func (e *evidence) write(path string) error {
 		"fork_decisions_by_kind":        e.ForkKinds,
 		"solver":                        map[string]interface{}{"name": "z3 4.8.12 (incremental, -in)", "queries": e.Queries, "sat": e.QSat, "unsat": e.QUnsat, "unknown": e.QUnknown, "errors": e.QErrors, "solver_time_s": round3(e.SolverS)},
 		"obligations_discharged":        e.Discharged,
+		"cross_checked_with_cvc5":       e.Cross,
 		"obligations_inconclusive":      e.Inconcl,
 		"reachability_witnesses":        e.Reached,
 		"native_replays":                map[string]int{"run": e.Replays, "reproduced": e.ReplaysOK},
